@@ -27,31 +27,104 @@ func validate(n node) error {
 	})
 }
 
-func isLeftRecursive(root *strct) (found bool) {
-	defer func() { _ = recover() }()
-	seen := map[node]bool{}
-	_ = visit(root.expr, func(n node, next func() error) error {
-		if found {
-			return nil
-		}
+// isLeftRecursive reports whether "root" can be re-entered before any token has been consumed:
+// directly or through other productions, union members, groups, captures, negations and lookahead
+// groups, in any alternative, and also after sub-expressions that can match nothing.
+func isLeftRecursive(root *strct) bool {
+	seen := map[*strct]bool{}
+	var leftEdge func(n node) bool
+	leftEdge = func(n node) bool {
 		switch n := n.(type) {
 		case *strct:
-			if root.typ == n.typ {
-				found = true
+			if n.typ == root.typ {
+				return true
 			}
-
+			if seen[n] {
+				return false
+			}
+			seen[n] = true
+			return leftEdge(n.expr)
+		case *union:
+			for _, member := range n.disjunction.nodes {
+				if leftEdge(member) {
+					return true
+				}
+			}
+		case *disjunction:
+			for _, alt := range n.nodes {
+				if leftEdge(alt) {
+					return true
+				}
+			}
 		case *sequence:
-			if !n.head {
-				panic("done")
+			// Every element up to and including the first one that must consume input is on the left edge.
+			for s := n; s != nil; s = s.next {
+				if leftEdge(s.node) {
+					return true
+				}
+				if !matchesEmpty(s.node, map[*strct]bool{}) {
+					break
+				}
+			}
+		case *capture:
+			return leftEdge(n.node)
+		case *group:
+			return leftEdge(n.expr)
+		case *negation:
+			return leftEdge(n.node)
+		case *lookaheadGroup:
+			return leftEdge(n.expr)
+		}
+		return false
+	}
+	return leftEdge(root.expr)
+}
+
+// matchesEmpty reports whether n can match without consuming a token.
+func matchesEmpty(n node, visiting map[*strct]bool) bool {
+	switch n := n.(type) {
+	case *strct:
+		if visiting[n] {
+			return false
+		}
+		visiting[n] = true
+		defer delete(visiting, n)
+		return matchesEmpty(n.expr, visiting)
+	case *union:
+		for _, member := range n.disjunction.nodes {
+			if matchesEmpty(member, visiting) {
+				return true
 			}
 		}
-		if seen[n] {
-			return nil
+	case *disjunction:
+		for _, alt := range n.nodes {
+			if matchesEmpty(alt, visiting) {
+				return true
+			}
 		}
-		seen[n] = true
-		return next()
-	})
-	return
+	case *sequence:
+		for s := n; s != nil; s = s.next {
+			if !matchesEmpty(s.node, visiting) {
+				return false
+			}
+		}
+		return true
+	case *capture:
+		return matchesEmpty(n.node, visiting)
+	case *group:
+		switch n.mode {
+		case groupMatchZeroOrOne, groupMatchZeroOrMore:
+			return true
+		case groupMatchNonEmpty:
+			return false
+		default:
+			return matchesEmpty(n.expr, visiting)
+		}
+	case *lookaheadGroup:
+		return true
+	}
+	// Literals, references and negations consume a token; custom productions are assumed to.
+	return false
 }
 
 func indent(s string) string {
